@@ -139,6 +139,12 @@ impl Archive {
         file_probe(path_join(self.root(), band_dir_name(id.0)), "BANDTAIL"@) == Ok::<bool, ()>(true)
     }
 
+    // select's knowledge "opening band id failed because it has no BANDHEAD" (a half-deleted band): here, where the
+    // head's read outcome is modelled, it is the outcome `Ok(None)`
+    spec fn head_missing(&self, id: BandId) -> bool {
+        head_read(self.band_dir(id)) == Ok::<Option<Head>, ()>(None)
+    }
+
     // "BANDHEAD of band id exists" = the version exists (stitch_types.rs m_exists)
     spec fn exists(&self, id: BandId) -> bool {
         file_probe(path_join(self.root(), band_dir_name(id.0)), "BANDHEAD"@) == Ok::<bool, ()>(true)
